@@ -284,6 +284,19 @@ class Explorer:
 
 # ------------------------------------------------------------------------------------------------ arithmetic (both executors)
 
+def _big(e, limit=4):
+    """more than `limit` AST nodes?"""
+    n = 0
+    todo = [e]
+    while todo:
+        t = todo.pop()
+        n += 1
+        if n > limit:
+            return True
+        todo.extend(t.children())
+    return False
+
+
 def _ovf_guard(o, ok, what):
     if not o.branch(ok):
         raise Fail("arith", what)
@@ -315,7 +328,9 @@ def arith(o, op, a, b):
             raise Fail("arith", "overflow")
         return r
     x, y = bv(a), bv(b)
-    both = is_sym(a) and is_sym(b)
+    # exact overflow guards only for small terms (a counter plus a constant); for symbolic + symbolic and for long sums the
+    # overflow condition is an uninterpreted predicate of the operands
+    both = (is_sym(a) and is_sym(b)) or _big(x) or _big(y)
     if op == "+":
         # symbolic + symbolic: the sum is exact, the overflow condition is an uninterpreted predicate of the operands (chains of
         # exact overflow guards over several inputs cost seconds per query; both executors share the abstraction)
